@@ -79,6 +79,8 @@ struct Runner {
     else if (op == "destroymap") t->DestroyMap();
     else if (op == "copytoaux") aux->CopyFrom(*t, alloc);
     else if (op == "copyfromaux") t->CopyFrom(*aux, alloc);
+    else if (op == "copytoauxown") aux->CopyFrom(*t, alloc, true);
+    else if (op == "copyfromauxown") t->CopyFrom(*aux, alloc, true);
     else if (op == "swapaux") t->Swap(*aux);
     else if (op == "movechildup") *static_cast<N*>(root.get()) = std::move(*t);
     else if (op == "parse") {
@@ -96,6 +98,20 @@ struct Runner {
     return "";
   }
 };
+
+// a copy made with copyString = true must own every string: none may be a borrowed (const) string and none may point
+// into storage the caller owns (the interned buffers) - the caller may reuse those buffers afterwards
+template <typename N>
+static std::string borrows(const N& n) {
+  if (n.IsString()) {
+    if (n.IsStringConst()) return "a string of the copy is still a borrowed (const) string";
+    for (auto& s : g_intern) if (!s.empty() && n.GetStringView().data() >= s.data() && n.GetStringView().data() < s.data() + s.size()) return "a string of the copy points into the caller's buffer";
+    return "";
+  }
+  if (n.IsArray()) { for (auto it = n.Begin(); it != n.End(); ++it) { std::string e = borrows(*it); if (!e.empty()) return e; } }
+  if (n.IsObject()) { for (auto it = n.MemberBegin(); it != n.MemberEnd(); ++it) { std::string e = borrows(it->name); if (e.empty()) e = borrows(it->value); if (!e.empty()) return e; } }
+  return "";
+}
 
 template <typename N>
 static std::string absent_lookups(const N& n) {
@@ -178,6 +194,10 @@ static int run(const char* logpath, vh::Cases& cs, vh::Progress& pg, size_t star
     if (r[15] != "-" && vh::unhex(r[15]) != R.root->Dump()) R.drift_dump++;
     std::string c2 = vh::CompareTokens(r[8], wx, nullptr);
     if (!c2.empty()) { vh::fail(i, "state", "aux after " + r[2] + ": " + c2 + " got=" + wx.substr(0, 160)); bad = true; }
+    if (r[2] == "copytoauxown" || r[2] == "copyfromauxown") {
+      std::string be = borrows(r[2] == "copytoauxown" ? *R.aux : *R.T(atol(r[3].c_str())));
+      if (!be.empty()) { vh::fail(i, "copy", "CopyFrom(..., copyString = true): " + be); bad = true; }
+    }
     if (r[2] == "removemember" && (ret ? "1" : "0") != r[9]) { vh::fail(i, "retval", "RemoveMember returned " + std::to_string(ret)); bad = true; }
     std::string al = absent_lookups(*R.root);
     if (al.empty()) al = absent_lookups(*R.aux);
